@@ -407,7 +407,7 @@ Section Seq.
       pose proof (UpInv0_Good cap OK SH n h tg R2 HU) as HG.
       destruct (UpInv_store cap OK SH n h tg x Hn HG) as [Hfree HUs]. fold i in Hfree, HUs.
       exists (fun h' tg' n' cl' => n' = S n /\ UpA 0 s (push_tok cap s :: fut) h' tg' n cl'). split.
-      { exists h, tg, (S n). split; [|split; [reflexivity|exact HU0]]. subst c'. apply Rep_set_ctr; [exact HR|exact Hn]. }
+      { exists h, tg, (S n). split; [|split; [reflexivity|exact HU0]]. subst c'. apply (Rep_set_ctr g h tg n (S n) HR Hn). }
       intros _. cbn [unbusy vb vn]. apply hsafe_lock_none.
       apply hsafe_unlock. intros g2 h2 tg2 n2 cl2 HR2 (En2 & HU2 & [M21 M22] & HH2). subst n2.
       cbn [body_push_store fst snd flat_map]. split; [reflexivity|].
